@@ -325,6 +325,12 @@ func (ex *Exchange[H]) GetRangeByHeight(
 		withValidation(from),
 	)
 	defer session.close()
+	// sanity check the range, otherwise the amount below underflows or is zero
+	if to <= from.Height()+1 {
+		err := fmt.Errorf("%w: from+1(%d), to(%d)", header.ErrRangeMixUp, from.Height()+1, to)
+		span.SetStatus(codes.Error, err.Error())
+		return nil, err
+	}
 	// we request the next header height that we don't have: `fromHead`+1
 	amount := to - (from.Height() + 1)
 	result, err := session.getRangeByHeight(
